@@ -65,7 +65,7 @@ class Weird:
 SIMPLE_HEADER = "from inline_snapshot import snapshot, Is\n\n"
 
 STR_POOL = ["", "a", "b c", "it's", 'say "hi"', "x\ny", "tab\there", "back\\slash", "é", "\U0001F40D", "line1\nline2\n", " lead", "trail ",
-            "q'\"both", "\x00nul", "a\rb", "long " * 6]
+            "q'\"both", "\x00nul", "a\rb", "long " * 6, "'a' \"b\"", "it's \"x\""]
 BYTES_POOL = [b"", b"a", b"\x00\xff", b"it's", b'q"', b"nl\n"]
 KEY_STR = ["k", "key2", "z z", "a'b"]
 
